@@ -103,15 +103,16 @@ def lit_scalar(v):
     return None
 
 
-def lit(v):
+def lit(v, asep=','):
     s = lit_scalar(v)
     if s is not None:
         return s
     if is_list(v) and v:
         if all(not is_list(x) for x in v):
-            parts = [lit_scalar(x) for x in v]
-            if all(p is not None for p in parts) and len(v) >= 1:
-                return '{' + ','.join(parts) + '}'
+            parts = ['' if x is None else lit_scalar(x) for x in v]
+            # one omitted element (a blank) is an empty slot; a one-slot or all-blank literal is not spelled
+            if all(p is not None for p in parts) and parts.count('') <= 1 and (len(v) >= 2 or parts.count('') == 0):
+                return '{' + asep.join(parts) + '}'
             return None
         if len(v) == 2 and all(is_list(r) and len(r) >= 2 and all(not is_list(x) for x in r) for r in v):
             rows = [[lit_scalar(x) for x in r] for r in v]
@@ -216,6 +217,9 @@ POOL['M'] = _MIXLISTS + _NUMLISTS
 POOL['M_'] = [1, 'a', None, True, E_NA, 0]
 POOL['S'] = _SORTED + _DESC + [[[1, 2], [3, 4]], [[1, 2, 3]], [[1], [2], [3]]]
 POOL['S_'] = _MIXLISTS + [1, 'a', None]
+_SLOTLISTS = [[1, 2, None], [None, 1, 2], [1, None, 2], ['a', 'b', None], [None, 7.5]]
+DEC2 = [1.14, 2.28, 4.56, 0.99, 7.5, 19.99, 0.07, 3.3, 57.21, 0.1]
+POOL['dec'] = DEC2
 POOL['a'] = POOL['n'][:14] + POOL['t'][:10] + [True, False, None, E_NA, E_DIV, dt(2020, 2, 29), BIG, 0.0, '', ',', ';', '#N/A', '#REF!']
 POOL['a_'] = _NUMLISTS[:3] + _MIXLISTS[:3] + [E_VAL, E_NUM, -0.0, '1', ' ']
 POOL['E'] = POOL['e'] + POOL['e'] + [1, 0, 'a', None, True, 2.5, '', dt(2020, 2, 29)]
@@ -286,7 +290,7 @@ ARITH = {'{0}+{1}': ['o', 'o'], '{0}-{1}': ['o', 'o'], '{0}*{1}': ['o', 'o'], '{
 CMP = {'{0}' + op + '{1}': ['o', 'o'] for op in ['=', '<>', '<', '>', '<=', '>=']}
 DATEOPS = {'{0}+{1}': ['d', 'n'], '{0}-{1}': ['d', 'd'], '{1}+{0}': ['d', 'n'], '{0}-{1}+0': ['d', 'n'], '{0}<{1}': ['d', 'd'], '{0}<={1}': ['d', 'd'],
            '{0}={1}': ['d', 'd'], '{0}>{1}': ['d', 'd'], '{0}*1': ['d'], '{0}<>{1}': ['d', 'd'], '{0}>={1}': ['d', 'd']}
-ERROPS = {'{0}+{1}': ['E', 'o'], '{1}*{0}': ['E', 'o'], '{0}&{1}': ['E', 'o'], '{0}={1}': ['E', 'o'], '{1}<{0}': ['E', 'o'], '-{0}': ['E'],
+ERROPS = {'{0}': ['E'], '{0}+{1}': ['E', 'o'], '{1}*{0}': ['E', 'o'], '{0}&{1}': ['E', 'o'], '{0}={1}': ['E', 'o'], '{1}<{0}': ['E', 'o'], '-{0}': ['E'],
           '{0}/{1}': ['o', 'z'], 'IFERROR({0}/{1},{2})': ['o', 'z', 'a'], 'ISERROR({0}+{1})': ['E', 'o'], 'IFNA({0}&{1},{2})': ['E', 'o', 'a'],
           '{0}+{1}+{2}': ['E', 'E', 'o'], 'IF(ISERROR({0}),{1},{0})': ['E', 'a']}
 
@@ -317,12 +321,12 @@ POOL['A1'] = [[2], [0.5], [-3], 2, ['4'], [1]]
 
 FAMILY = {
     'C04': {'ops': PREC, 'fns': []},
-    'C05': {'ops': {'{0}': ['a'], '({0})': ['a'], '{0}&{1}': ['t', 't']}, 'fns': ['SUM', 'CONCATENATE', 'COUNTA', 'COUNTBLANK', 'CHOOSE', 'AND', 'MAX', 'TEXTJOIN', 'IF', 'LEFT', 'ROUND']},
+    'C05': {'ops': {'{0}': ['a'], '({0})': ['a'], '{0}&{1}': ['t', 't'], '{0}+0': ['dec']}, 'fns': ['SUM', 'CONCATENATE', 'COUNTA', 'COUNTBLANK', 'CHOOSE', 'AND', 'MAX', 'TEXTJOIN', 'IF', 'LEFT', 'ROUND']},
     'C06': {'ops': ARITH, 'fns': []},
     'C07': {'ops': CMP, 'fns': []},
     'C08': {'ops': ERROPS, 'fns': ['IFERROR', 'IFNA', 'ISERROR', 'ISERR', 'ISNA', 'ERROR.TYPE', 'NA']},
     'C11': {'ops': {}, 'fns': _AGG + ['SUMIF', 'COUNTIF', 'AVERAGEIF', 'SUMIFS', 'AVERAGEIFS', 'MAXIFS', 'LARGE', 'SLOPE']},
-    'C12': {'ops': {}, 'fns': ['AND', 'OR', 'XOR', 'NOT', 'IF', 'IFS', 'SWITCH', 'TRUE', 'FALSE', 'ISBLANK', 'ISNUMBER', 'ISTEXT',
+    'C12': {'ops': {'{0}': ['E']}, 'fns': ['AND', 'OR', 'XOR', 'NOT', 'IF', 'IFS', 'SWITCH', 'TRUE', 'FALSE', 'ISBLANK', 'ISNUMBER', 'ISTEXT',
                                'ISNONTEXT', 'ISLOGICAL', 'ISEVEN', 'ISODD', 'N', 'T', 'ISERROR', 'ISERR', 'ISNA']},
     'C13': {'ops': DATEOPS, 'fns': ['DATEVALUE', 'N', 'DAYS']},
     'C14': {'ops': {}, 'fns': ['DATE', 'TIME', 'YEAR', 'MONTH', 'DAY', 'HOUR', 'MINUTE', 'SECOND', 'WEEKDAY', 'EDATE', 'DATEDIF', 'DAYS',
@@ -335,7 +339,7 @@ FAMILY = {
     'C17': {'ops': {}, 'fns': ['ROUND', 'ROUNDUP', 'ROUNDDOWN', 'CEILING', 'CEILING.MATH', 'CEILING.PRECISE', 'FLOOR', 'FLOOR.MATH',
                                'FLOOR.PRECISE', 'INT', 'EVEN', 'ODD', 'SIGN', 'ABS', 'QUOTIENT', 'MOD', 'FACT', 'FACTDOUBLE', 'ROMAN',
                                'ARABIC', 'BASE', 'DECIMAL', 'HEX2DEC', 'DEC2HEX', 'DELTA']},
-    'C18': {'ops': {'INDEX({1},MATCH({0},{1},0))': ['a', 'S']}, 'fns': ['CHOOSE', 'INDEX', 'MATCH']},
+    'C18': {'ops': {'INDEX({1},MATCH({0},{1},0))': ['a', 'S'], '{0}': ['dec']}, 'fns': ['CHOOSE', 'INDEX', 'MATCH']},
 }
 
 
@@ -392,8 +396,11 @@ HOSTFN = ['HFA', 'hfb', 'Hfc', 'HFD', 'hfe', 'Hff', 'HFG', 'hfh']       # a host
 NESTFN = ['NSA', 'nsb', 'Nsc', 'NSD', 'nse', 'Nsf', 'NSG', 'nsh']
 NESTCELL = ['NCA', 'ncb', 'Ncc', 'NCD', 'nce', 'Ncf', 'NCG', 'nch']      # a custom function that evaluates a CELL reference on the same parser
 TWIN_NAMES = ['YA', 'YB', 'YC', 'YD', 'YE', 'YF', 'YG', 'YH']
-ARG_ROUTES = ['var', 'lit', 'cell', 'cellabs', 'celllow', 'range', 'rangerev', 'rangemix', 'hostfn', 'nested', 'nestedcell', 'if', 'choose', 'paren', 'slot',
+ARG_ROUTES = ['var', 'lit', 'cell', 'cellabs', 'celllow', 'cellformula', 'range', 'rangerev', 'rangemix', 'hostfn', 'nested', 'nestedcell', 'if', 'choose',
+              'paren', 'slot', 'varmix',
               'varlis', 'lisonly']
+MIX_NAMES = ['wa', 'Wb', 'wC', 'Wd', 'we', 'Wf', 'wG', 'Wh']      # variables whose upper-cased twin is registered with another value
+ALT_CELLS = ['BB2', 'CC3', 'DD4', 'EE5', 'FF6', 'GG7', 'HH8', 'JJ9']
 LIS_NAMES = ['ZA', 'ZB', 'ZC', 'ZD', 'ZE', 'ZF', 'ZG', 'ZH']
 # arrays handed over as tuples (a host that reads rows from a database cursor): only where the statement's functions flatten
 # their arguments, i.e. where a tuple and a list are the same collection of items
@@ -407,6 +414,13 @@ def arg_text(i, v, route):
     """text of operand i under `route`, or None when the route cannot carry the value"""
     if route == 'var':
         return VAR_NAMES[i]
+    if route == 'varmix':
+        return MIX_NAMES[i]
+    if route == 'cellformula':
+        return CELLS[i]
+    if route == 'errlit':
+        # an error code written in the formula RAISES that error: only where the whole formula then reports that code anyway
+        return v['err'] if is_err(v) and re.match(r'^#[A-Z0-9/]+[!?]?$', v['err']) else None
     if route in ('varlis', 'lisonly'):
         # a name the host's callVariable listener answers: registered with a stale value (varlis) or not registered at all
         # (lisonly); a listener cannot hand over a blank (None means "no answer")
@@ -415,6 +429,9 @@ def arg_text(i, v, route):
         return VAR_NAMES[int(route[5:])]
     if route == 'lit':
         return lit(v)
+    if isinstance(route, str) and route.startswith('lit:'):
+        # a flat array literal written with `;` or `\\` between its elements
+        return lit(v, route[4:]) if is_list(v) and all(not is_list(x) for x in v) else None
     if route == 'slot':
         return '' if v is None else None
     if route in ('cell', 'cellabs', 'celllow'):
@@ -533,6 +550,20 @@ def _strip(label):
     return label.replace('$', '').upper()
 
 
+class _Formula(object):
+    """the content of a formula cell: the host's listener answers it by evaluating `text` on the same parser"""
+    def __init__(self, text):
+        self.text = text
+
+
+def _cell_answer(p, label):
+    v = _cellval.get(label)
+    if isinstance(v, _Formula):
+        rec = p.parse(v.text)
+        return _error().from_message(rec['error']) if rec['error'] is not None else rec['result']
+    return v
+
+
 def _nested(p, name):
     def f():
         rec = p.parse(name)
@@ -548,7 +579,7 @@ def parser(debug=False):
         common.load_repo()
         import hotxlfp
         p = hotxlfp.Parser(debug=True) if debug else hotxlfp.Parser()
-        p.on('callCellValue', lambda cell, setter: setter(_cellval.get(_strip(cell.label))))
+        p.on('callCellValue', (lambda q: (lambda cell, setter: setter(_cell_answer(q, _strip(cell.label)))))(p))
         p.on('callRangeValue', lambda a, b, setter: setter(_rangeval.get((_strip(a.label), _strip(b.label)))))
         p.on('callVariable', lambda name, setter: setter(_lisval.get(name)))
         for i, name in enumerate(HOSTFN):
@@ -594,6 +625,12 @@ def _bind(p, c, decoy=False):
             _lisval[LIS_NAMES[i]] = dec(v)
         if r == 'nestedcell':
             _cellval[CELLS[i]] = dec(v)
+        if r == 'cellformula':
+            _cellval[CELLS[i]] = _Formula(ALT_CELLS[i])
+            _cellval[ALT_CELLS[i]] = dec(v)
+        if r == 'varmix':
+            p.set_variable(MIX_NAMES[i], dec(v))
+            p.set_variable(MIX_NAMES[i].upper(), 'TWIN')
         if r in ('cell', 'cellabs', 'celllow'):
             # a host variable spelled like the reference does not shadow the cell (the lexer reads letters+digits as a cell)
             lab = CELLS[i].lower() if r == 'celllow' else CELLS[i]
@@ -698,7 +735,7 @@ def fresh_parser_with_once(debug):
     p = hotxlfp.Parser(debug=True) if debug else hotxlfp.Parser()
     for ev in ('callCellValue', 'callRangeValue', 'callVariable', 'callFunction'):
         p.once(ev, lambda *a: None)
-    p.on('callCellValue', lambda cell, setter: setter(_cellval.get(_strip(cell.label))))
+    p.on('callCellValue', (lambda q: (lambda cell, setter: setter(_cell_answer(q, _strip(cell.label)))))(p))
     p.on('callRangeValue', lambda a, b, setter: setter(_rangeval.get((_strip(a.label), _strip(b.label)))))
     p.on('callVariable', lambda name, setter: setter(_lisval.get(name)))
     for i, name in enumerate(HOSTFN):
@@ -719,7 +756,7 @@ def decoy_parser():
         common.load_repo()
         import hotxlfp
         p = hotxlfp.Parser()
-        p.on('callCellValue', lambda cell, setter: setter(_cellval.get(_strip(cell.label))))
+        p.on('callCellValue', (lambda q: (lambda cell, setter: setter(_cell_answer(q, _strip(cell.label)))))(p))
         p.on('callRangeValue', lambda a, b, setter: setter(_rangeval.get((_strip(a.label), _strip(b.label)))))
         p.on('callVariable', lambda name, setter: setter(_lisval.get(name)))
         for i, name in enumerate(HOSTFN):
@@ -743,6 +780,9 @@ def _bind_listeners_only(c):
             _lisval[LIS_NAMES[i]] = dec(v)
         if r in ('cell', 'cellabs', 'celllow', 'nestedcell'):
             _cellval[CELLS[i]] = dec(v)
+        elif r == 'cellformula':
+            _cellval[CELLS[i]] = _Formula(ALT_CELLS[i])
+            _cellval[ALT_CELLS[i]] = dec(v)
         elif r in ('range', 'rangerev', 'rangemix'):
             _rangeval[RANGES[i]] = dec(v)
         elif r == 'rangetup':
@@ -783,6 +823,11 @@ def request(c):
         if r in ('varlis', 'lisonly'):
             # the model has no callVariable listeners: the name carries the value the listener hands over
             variables[LIS_NAMES[i]] = dec(v)
+        if r == 'varmix':
+            variables[MIX_NAMES[i]] = dec(v)
+            variables[MIX_NAMES[i].upper()] = 'TWIN'
+        if r == 'cellformula':
+            cells[CELLS[i]] = dec(v)
         if r in ('cell', 'cellabs', 'celllow'):
             # the model's environment is keyed by the upper-cased label as written
             cells[arg_text(i, v, r).upper()] = dec(v)
@@ -1071,6 +1116,7 @@ def route_cases(rng, ctx, fam, scale=None):
     # small families get more cases per call so that every check has a comparable share
     per = max(per, ((700 if tier == 'quick' else 12000) * sc) // len(specs))
     out = []
+    tier_ok = True
     for kind, name in specs:
         sig = SIGS[name] if kind == 'fn' else fam['ops'][name]
         made = 0
@@ -1109,7 +1155,53 @@ def route_cases(rng, ctx, fam, scale=None):
                     continue
             out.append(c)
             made += 1
+        if kind == 'tpl' and len(sig) == 2 and tier_ok:
+            # systematic: a BLANK operand on every route that can carry one, beside an empty text, FALSE and zero (a blank is 0, ''
+            # or FALSE according to the other operand - whatever brought it)
+            for pos in (0, 1):
+                for r in ('paren', 'cell', 'if', 'choose', 'hostfn', 'nested'):
+                    for other in ('', False, 0):
+                        args = [None, other] if pos == 0 else [other, None]
+                        routes = ['var', 'var']
+                        routes[pos] = r
+                        c = {'kind': 'route', 'tpl': name, 'args': args, 'routes': routes}
+                        if formula_of(c) is not None:
+                            out.append(c)
+            # systematic: a flat array literal with an omitted element, written with each of the three separators
+            for arr in _SLOTLISTS:
+                for asep in (',', ';', '\\'):
+                    c = {'kind': 'route', 'tpl': name, 'args': [arr, 3], 'routes': ['lit' if asep == ',' else 'lit:' + asep, 'var']}
+                    if formula_of(c) is not None:
+                        out.append(c)
+        if kind == 'tpl' and name == '{0}':
+            # systematic: decimal literals are what they spell (the nearest double of the text), error literals report their code
+            for x in DEC2:
+                out.append({'kind': 'route', 'tpl': name, 'args': [x], 'routes': ['lit']})
+                out.append({'kind': 'route', 'tpl': name, 'args': [-x], 'routes': ['lit']})
+            for code in ERRS[:8]:
+                out.append({'kind': 'route', 'tpl': name, 'args': [err(code)], 'routes': ['errlit']})
         if kind == 'fn':
+            if any(k.rstrip('+?') in ('N', 'M', 'S', 'NN') for k in sig):
+                # systematic: a flat array literal with an omitted element under each of the three separators
+                pos = [i for i, k in enumerate(sig) if k.rstrip('+?') in ('N', 'M', 'S', 'NN')][0]
+                for arr in _SLOTLISTS[:3]:
+                    for asep in (',', ';', '\\'):
+                        args = None
+                        for _ in range(6):
+                            args = draw_args(rng, sig)
+                            if len(args) > pos:
+                                break
+                        if args and len(args) > pos:
+                            args = args[:pos] + [arr] + args[pos + 1:]
+                            rts = ['var'] * len(args)
+                            rts[pos] = 'lit' if asep == ',' else 'lit:' + asep
+                            c = {'kind': 'route', 'fn': name, 'args': args, 'routes': rts}
+                            if formula_of(c) is not None:
+                                out.append(c)
+            if sig[:2] == ['a', 'S']:
+                # systematic: a two-decimal lookup value written as a literal against a host array of the same numbers
+                for x in DEC2[:5]:
+                    out.append({'kind': 'route', 'fn': name, 'args': [x, DEC2[:5], 0], 'routes': ['lit', 'var', 'var']})
             # systematic: an omitted argument in the first, a middle and the last slot under each of the three separators
             # (the slot rule is one grammar action per separator), on this function's own signature
             for sep in SEPS:
